@@ -264,6 +264,7 @@ func (e *Engine) Generate(r *core.Rand, prop string, tier string) core.Trace {
 		g.memOps(nOps(r, tier))
 	case "C18":
 		t.Obj, g.symOK = "regs", r.Chance(3, 4)
+		t.BytesIO = r.Chance(1, 3)
 		g.regOps(nOps(r, tier))
 	}
 	return t
@@ -414,6 +415,13 @@ func (g *gen) regOps(n int) {
 		case 2:
 			g.t.Ops = append(g.t.Ops, Op{K: "apply_reg", Key: key, W: w, V: g.value(w)})
 		case 3: // constant address
+			if g.loads > 0 && g.r.Chance(1, 4) {
+				// what a register read returned is written to memory as it is
+				a := g.addr()
+				g.t.Ops = append(g.t.Ops, Op{K: "apply_mem", Key: symMems[g.r.Intn(2)], W: w, V: g.value(w), ValFrom: 1 + g.r.Intn(g.loads), ValWidth: g.r.Chance(2, 3),
+					AddrX: refeval.ConstU(a, 8)})
+				continue
+			}
 			if g.loads > 0 && g.r.Chance(1, 3) {
 				// ... computed from what a register read returned
 				g.t.Ops = append(g.t.Ops, Op{K: "apply_mem", Key: symMems[g.r.Intn(2)], W: w, V: g.value(w),
@@ -430,11 +438,19 @@ func (g *gen) regOps(n int) {
 			g.t.Ops = append(g.t.Ops, Op{K: "apply_mem", Key: symMems[g.r.Intn(2)], W: w, V: g.value(w), AddrX: x})
 		default: // address that does not reduce to a constant: must be refused
 			var x *refeval.J
-			switch g.r.Intn(3) {
+			switch g.r.Intn(7) {
 			case 0:
 				x = refeval.RegJ("x1", 8)
 			case 1:
 				x = refeval.BinJ(int(expr.Add), refeval.RegJ("x2", 8), refeval.ConstU(uint64(g.r.Intn(64)), 8), 8)
+			case 2: // 0 / x: all ones when x is 0, so no constant
+				x = refeval.BinJ(int(expr.Div), refeval.ConstU(0, 8), refeval.RegJ("x1", 8), 8)
+			case 3: // one of two different constants
+				x = refeval.LessJ(refeval.RegJ("x2", 8), refeval.ConstU(uint64(g.r.Intn(64)), 8), refeval.ConstU(0x40, 8), refeval.ConstU(0x80, 8), 8)
+			case 4:
+				x = refeval.BinJ(int(expr.Nand), refeval.RegJ("x1", 8), refeval.ConstU(uint64(g.r.Intn(64))|1, 8), 8)
+			case 5:
+				x = refeval.BinJ(int(expr.Rsh), refeval.RegJ("x3", 8), refeval.ConstU(uint64(g.r.Intn(8)), 1), 8)
 			default:
 				x = refeval.MemJ("memory", refeval.ConstU(uint64(g.r.Intn(64)), 8), 8)
 			}
